@@ -170,6 +170,19 @@ def interleaved_pipeline(n, mode):
   return ds.chain(apply_)
 
 
+def _chain(exc, depth=5):
+  """repr of an exception with its causes (a failed stage is reported as ValueError(...) from <the real error>)."""
+  out = []
+  while exc is not None and depth:
+    out.append(repr(exc)[:200])
+    subs = getattr(exc, 'exceptions', None)
+    if subs:
+      out.append('[' + '; '.join(_chain(e, 2) for e in subs[:3]) + ']')
+    exc = exc.__cause__ or exc.__context__
+    depth -= 1
+  return ' <- '.join(out)
+
+
 def run_interleaved(case):
   ns = L.setup()
   X.install_exit_guard()
@@ -212,7 +225,7 @@ def run_interleaved(case):
     hang, _, exc = L.run_guarded(body, 5.0 if lat is not None else TIMEOUT)
     outcome = 'hang' if hang else ('returned' if exc is None else err_kind(exc))
     returned = info.get('returned', [])
-    obs = dict(outcome=outcome, detail=repr(exc)[:200] if exc is not None else None,
+    obs = dict(outcome=outcome, detail=_chain(exc) if exc is not None else None,
                 batches=sorted(int(b) for b in out if b is not None), nones=sum(1 for b in out if b is None),
                 results=[L.canon_agg(r.agg_result) if isinstance(r, ns.transform.AggregateResult) else repr(r)
                          for r in returned],
